@@ -158,6 +158,77 @@ pub(crate) fn run(seed: u64, n: u64, out: &mut Out) {
     boundary_messages(&mut rng, n, out);
     fork_histories(&mut rng, n, out);
     poisoned_cache(&mut rng, n, out);
+    download_after_clear(&mut rng, n, &guard, out);
+}
+
+/// C05 on the download path: an honest proven peer is asked for matched blocks; before they arrive the matched blocks are
+/// cleared (set_scripts); the peer then delivers exactly what it was asked for.  Its request is answered: more than a message
+/// timeout later a refresh tick must not disconnect it.
+fn download_after_clear(rng: &mut Rng, n: u64, guard: &ckb_systemtime::FaketimeGuard, out: &mut Out) {
+    use crate::protocols::light_client::constant::REFRESH_PEERS_TOKEN;
+    let consensus = dummy_consensus();
+    let interval = 10u64;
+    for world in 0..(n / 60).max(1) {
+        guard.set_faketime(super::chain::T0);
+        let pool: Vec<packed::Script> = (1..=3u8).map(|i| pool_script(9, &[i])).collect();
+        let mut gen = TxGen::new(pool.clone(), world * 100_000, 1);
+        let len = rng.range(14, 22);
+        let bc = BodyChain::new(rng, flat_plan(8, 8, 5), len, 45_000 + world, &mut gen);
+        let tip = bc.tip();
+        let mut net = Net::new(&bc.chain, &consensus, 5, 1, interval);
+        let peer = PeerIndex::new(1);
+        if !net.prove_peer(peer, &bc.chain, tip - 1) { continue; }
+        let statuses = || -> Vec<crate::storage::ScriptStatus> { pool.iter().map(|s| crate::storage::ScriptStatus { script: s.clone(), script_type: crate::storage::ScriptType::Lock, block_number: 0 }).collect() };
+        net.storage.update_filter_scripts(statuses(), crate::storage::SetScriptsCommand::All);
+        net.peers.mock_latest_block_filter_hashes(peer, 0, (1..tip).map(|j| bc.fhashes[j as usize].clone()).collect());
+        let mut log: Vec<String> = Vec::new();
+        let mut problems: Vec<String> = Vec::new();
+        // a batch of authentic filters: matched blocks, proof request, proof, block request
+        let r = net.fp_recv(peer, filters_message(serve_block_filters(&bc, 1, 8)));
+        let mut queue = r.sent;
+        let mut asked: Vec<packed::Byte32> = Vec::new();
+        for _ in 0..4 {
+            let mut next = Vec::new();
+            for (p, s) in queue.drain(..) {
+                match s {
+                    Sent::GetBlocksProof(req) => { if let Some(resp) = serve_blocks_proof(&bc.chain, &req) { next.extend(net.lc_recv(p, blocks_proof_message(resp)).sent); } }
+                    Sent::GetBlocks(hashes) => { asked.extend(hashes); }
+                    _ => {}
+                }
+            }
+            queue = next;
+            if queue.is_empty() { break; }
+        }
+        log.push(format!("{} blocks requested", asked.len()));
+        if asked.is_empty() { out.stat("fh-download-nothing-asked", &format!("{}", world)); continue; }
+        // the user changes the scripts while the blocks are under way: pending and in-memory matched blocks are dropped
+        {
+            let mut matched = net.peers.matched_blocks().write().expect("poisoned");
+            net.storage.update_filter_scripts(statuses(), crate::storage::SetScriptsCommand::All);
+            matched.clear();
+        }
+        guard.set_faketime(super::chain::T0 + 5_000);
+        for h in asked.iter() {
+            if let Some(nr) = bc.chain.number_of(h) {
+                let r = net.sp_recv(peer, send_block_message(bc.chain.block(nr)));
+                if r.panicked { problems.push(format!("[C10-handler-panic] SendBlock panicked: {}", super::last_panic())); }
+                if !r.bans.is_empty() { problems.push(format!("[C05-honest-peer-banned-for-requested-block] the requested block {} was answered with a ban ({:?})", nr, r.bans)); }
+            }
+        }
+        let outstanding = net.peers.get_peer(&peer).map(|p| p.get_blocks_request().is_some()).unwrap_or(false);
+        // the peer announces a new tip in time (so only the block request's timer can expire)
+        guard.set_faketime(super::chain::T0 + 50_000);
+        net.lc_recv(peer, super::prover::last_state_message(&bc.chain, tip).as_bytes());
+        guard.set_faketime(super::chain::T0 + 70_000);
+        let r = net.lc_tick(REFRESH_PEERS_TOKEN);
+        if r.disconnects.contains(&peer) || net.peers.get_state(&peer).is_none() {
+            problems.push(format!("[C05-honest-peer-timed-out-after-answering] the peer delivered every block it was asked for, yet the refresh tick 70 s after the request disconnected it (request still outstanding after delivery: {})", outstanding));
+        }
+        let oracle = if problems.is_empty() { Ok(()) } else { Err(problems.join(" || ")) };
+        out.case(&format!("download-after-clear-{}", world), &["download-after-clear"], "(VN 1)", &Val::n(1), oracle,
+            &format!("world {}: chain {} blocks, one honest proven peer; {}; set_scripts while they are under way; all delivered; refresh tick 70 s later", world, len, log.join("; ")));
+    }
+    guard.set_faketime(super::chain::T0);
 }
 
 /// C06 below the finalized check point: one proven peer delivers filter hashes for the cached range that are NOT the chain's
